@@ -50,3 +50,12 @@ pub fn heap_range() -> Range<Address> {
 pub fn available_range() -> Range<Address> {
     vm_layout().available_start()..vm_layout().available_end()
 }
+
+/// Verification hooks: crate-visible names of the private layout types.
+#[cfg(feature = "mmtk_verif")]
+pub(crate) mod verif_private {
+    pub(crate) use super::map32::Map32;
+    #[cfg(target_pointer_width = "64")]
+    pub(crate) use super::map64::Map64;
+    pub(crate) use super::mmapper::csm::ChunkStateMmapper;
+}
